@@ -434,7 +434,7 @@ func returnsNonNilError(b *ssa.BasicBlock) bool {
 	if !ok || len(ret.Results) == 0 {
 		return false
 	}
-	last := ret.Results[len(ret.Results)-1]
+	last := an.RetErr(ret)
 	if k, ok := last.(*ssa.Const); ok && k.IsNil() {
 		return false
 	}
